@@ -1,5 +1,7 @@
 package fixture
 
+import "sync/atomic"
+
 // C11NilChan ranges over a channel variable that only one branch assigns (GO-NILCHAN control).
 func C11NilChan(weighted bool) int {
 	var stats <-chan int
@@ -26,4 +28,19 @@ func C11Swallow(recs []c11rec) (err error) {
 		}
 	}
 	return
+}
+
+// C18ArrivalOrder numbers its outputs by the order in which the workers arrive (ARRIVAL-ORDER control).
+func C18ArrivalOrder(items []string, out []string) {
+	var next int32
+	done := make(chan bool)
+	for _, it := range items {
+		go func(it string) {
+			out[atomic.AddInt32(&next, 1)-1] = it
+			done <- true
+		}(it)
+	}
+	for range items {
+		<-done
+	}
 }
